@@ -333,7 +333,7 @@ fn run(line: &str) -> String {
             let mut gens = vec![DVec3::new(0.5, 0.5, 0.35), DVec3::new(0.5, 0.5, 0.65)];
             for k in 0..n {
                 let t = 2. * std::f64::consts::PI * (k as f64 + 0.37) / n as f64;
-                let r = 0.3 * (1. + 0.01 * ((k * 7919) % 13) as f64 / 13.);
+                let r = 0.3 * (1. + 0.001 * ((k * 7919) % 13) as f64 / 13.);
                 gens.push(DVec3::new(0.5 + r * t.cos(), 0.5 + r * t.sin(), 0.5));
             }
             let mut mask = vec![false; n + 2];
@@ -365,7 +365,7 @@ fn run(line: &str) -> String {
                 if half % 2 != 0 || (nv as i64) - (half as i64) / 2 + (nf as i64) != 2 {
                     bad.push(format!("cell {}: V - E + F = {} - {}/2 + {} != 2", cell.idx, nv, half, nf));
                 }
-                if biggest < n / 2 {
+                if biggest <= 255 && n > 512 {
                     bad.push(format!("cell {}: largest face lists {} vertices (ring of {})", cell.idx, biggest, n));
                 }
             }
